@@ -88,7 +88,8 @@ func (pl *Playlist) M3u8(token string) ([]byte, error) {
 		}
 	}
 
-	return w.Bytes(), nil
+	// w goes back to m3u8Pool on return: the caller needs its own bytes
+	return append([]byte(nil), w.Bytes()...), nil
 }
 
 // Segment 获取 segment
